@@ -18,6 +18,20 @@ def rt(checks_q, checks_t, shards=16, **kw):
     return d
 
 
+def ebin(pkgs_q, pkgs_t, shards=16, **kw):
+    d = dict(name="bin", module="gen", go=GO, test="TestBin", shards=shards, bin=True,
+             checks={"quick": pkgs_q, "thorough": pkgs_t}, timeout={"quick": 900, "thorough": 14400},
+             shrinktime={"quick": "40s", "thorough": "240s"})
+    d.update(kw)
+    return d
+
+
+BIN_ASSUME = [
+    "programs are drawn from the generator's spec language (docs-supported option mixes only); inputs that do not type-check are discarded and counted, never reported",
+    "task bodies are supplied by the harness (vcase/rt): values carry provenance tags, every invocation is logged with a global sequence number",
+    "the freshly built cff binary, go build and the real scheduler are in the loop; schedules are sampled (task timing, concurrency, simultaneous executions)",
+]
+
 SCHED_ASSUME = [
     "job bodies supplied by the harness always terminate (return or runtime.Goexit); jobs are enqueued after their dependencies, on one scheduler, Wait is called once and never before the last Enqueue (the scheduler's documented preconditions)",
     "Go's runtime scheduler and select arm choice are not enumerated: schedules are sampled (task timing, enqueue pacing, GOMAXPROCS, virtual clock and hook-point perturbation are generated inputs)",
@@ -74,11 +88,55 @@ PROPS["C12"] = dict(
     assumptions=SCHED_ASSUME + ["the race detector judges only executed code paths, generalised over the happens-before relation of each observed execution"],
 )
 
+
+def _add_bin(pid, q=1, t=20):
+    PROPS[pid]["stages"].append(ebin(q, t))
+    PROPS[pid]["rule"] += "; E-BIN stage: generated directives (flows/parallels in all spellings) processed by the freshly built cff binary, compiled and executed under rapid-drawn scenarios, same oracle evaluated on the event log of the generated code"
+
+
+for _p in ["C01", "C03", "C07", "C08", "C09"]:
+    _add_bin(_p)
+
+PROPS["C02"] = dict(
+    stages=[ebin(2, 40)],
+    rule="cases = (program, scenario) pairs: rapid-generated well-formed flows (typed DAGs, multi-output tasks, tasks written as literals / top-level functions / method values / imported functions / function variables / factories, local, pointer, named, slice, map, generic, interface, imported and not-imported value types, ctx/error mixes, Invoke tasks, predicates, any listing order, Concurrency absent/constant/expression) run through the freshly built cff binary and go build, then executed under no-failure scenarios (predicate true/false mixes, timings, N, 1..8 simultaneous executions); oracle = reference flow interpreter over provenance tags (each task exactly once or not at all if predicate false, exact inputs, exact Results, nil error); evaluations count scenario executions; non-trivial = flow with >=3 tasks and (multi-output task or ext2 type or non-literal spelling); distinct = hash(spec)",
+    assumptions=BIN_ASSUME,
+)
+PROPS["C04"] = dict(
+    stages=[ebin(2, 40)],
+    rule="programs as C02 plus parallels (Task/Tasks/Slice/Map/SliceEnd/MapEnd); scenarios inject panics (string, error, runtime error, struct, pointer values) into any subset of user functions of every kind, under fail-fast and ContinueOnError, with unfaulted sibling executions running concurrently; the inner driver is a separate process: an escaped panic kills it and is reported from its eager log; oracle = directive returns, errors.As yields *cff.PanicError whose Value is identical to an injected value of a function that ran (unless FallbackWith absorbed it), siblings return nil with exact results; non-trivial = program has a predicate / End hook / element function, or >=2 units; distinct = hash(spec)",
+    assumptions=BIN_ASSUME,
+)
+PROPS["C10"] = dict(
+    stages=[ebin(2, 40)],
+    rule="generated cff.Parallel programs mixing Task/Tasks/Slice/Map (index/no-index, ctx/error variants, named slice types, SliceEnd/MapEnd) in a go 1.19 module (loop-variable semantics matter); scenarios: collection sizes nil/0/1/2/3..12 (thorough ..200), no failure, plus element failures for the End-hook clause; oracle = argument log: every task once, slice fn exactly {(i, s[i])}, map fn exactly {(k, m[k])}, End hook once and after the last element call of its own collection, never after a failed element; non-trivial = program has a collection or an End hook; distinct = hash(spec)",
+    assumptions=BIN_ASSUME,
+)
+PROPS["C11"] = dict(
+    stages=[ebin(2, 40)],
+    rule="flows where tasks carry predicates (own inputs, ctx) and/or FallbackWith; scenarios: predicate outcomes {true,false,panic} x task outcomes {ok,error,panic}; oracle = reference interpreter: predicate at most once with exact inputs and after its providers, false => task never called, consumers/Results see zero tags, flow nil; fallback tags downstream iff task failed/panicked or predicate panicked; non-trivial = program has a predicate or a fallback; distinct = hash(spec)",
+    assumptions=BIN_ASSUME,
+)
+PROPS["C15"] = dict(
+    stages=[ebin(2, 40)],
+    rule="flows and parallels whose every argument expression (ctx, Params values, Results pointers, Concurrency, ContinueOnError, emitters, instrument names, task/predicate function expressions, FallbackWith values, Slice/Map collections) is wrapped in the logging identity rt.Arg(env,k,e), in all option orders; oracle = Arg log equals 0..n-1 exactly once each, on the calling goroutine, before the first user function starts; values reach their consumer (tag equality); non-trivial = >=4 wrapped expressions; distinct = hash(spec)",
+    assumptions=BIN_ASSUME + ["argument expressions do not mention an enclosing variable named err (known finding F9, excluded by construction)"],
+)
+PROPS["C18"] = dict(
+    stages=[ebin(2, 40)],
+    rule="instrumented flows/parallels: any subset of tasks with cff.Instrument, InstrumentFlow/Parallel on/off, 1..3 recording emitters incl. nested EmitterStack; all outcome/predicate/fallback combinations (no cancellation); oracle = emitter protocol model per emitter (exactly one Success|Error carrying the returned error, one Done after it; per invoked instrumented task one matching outcome event with the very error/panic value and one TaskDone after it; TaskSkipped exactly once for non-invoked tasks in nil-returning runs; all emitters of a stack record identical multisets); non-trivial = >=2 instrumented tasks or a nested stack; distinct = hash(spec)",
+    assumptions=BIN_ASSUME,
+)
+
 HOOK_COMMITS = ["661e699"]
 ENGINES = [
     {"name": "E-SCHED-ST", "path": "sched/st_test.go", "serves_properties": ["C01", "C03", "C05", "C06", "C07", "C08", "C09", "C19"],
      "kind_free_text": "rapid + testing/synctest (go1.26.8): real scheduler in a virtual-time bubble, exact deadlock/leak detection"},
     {"name": "E-SCHED-RT", "path": "sched/rt_test.go", "serves_properties": ["C01", "C03", "C05", "C06", "C07", "C08", "C09", "C12", "C19"],
      "kind_free_text": "rapid, real goroutines and clock on 16 cores; -race flavour for C12; stateful histories for C06"},
+]
+ENGINES += [
+    {"name": "E-BIN", "path": "gen/ebin_test.go", "serves_properties": ["C01", "C02", "C03", "C04", "C07", "C08", "C09", "C10", "C11", "C15", "C18"],
+     "kind_free_text": "rapid outer loop: spec -> Go module (go 1.19) -> freshly built cff binary -> go test -c -> inner driver (rapid scenario search, reference interpreters in gen/rt)"},
 ]
 NOT_YET = {}
